@@ -910,6 +910,9 @@ func (t *State) verifyDAGTxs(blockHeight int64, txs []*pb.Transaction, isRootTx 
 					if isRelyOnMarkedTx {
 						if !ok || err != nil {
 							t.log.Warn("tx verification failed because it is blocked tx", "err", err)
+							if err == nil {
+								err = errors.New("dotx failed because it is blocked tx")
+							}
 						} else {
 							t.log.Trace("blocked tx verification succeed")
 						}
